@@ -16,7 +16,9 @@ def replay_history(ht, cells, with_kern_reference=False, fresh_reference=False):
     from kernpy.core.kern_spine_importer import KernSpineImporter
     imp = createImporter(ht)
     log = [{'ev': 'new', 'ht': cps(ht)}]
-    for c in cells:
+    for n_, c in enumerate(cells):
+        if n_ % 25 == 0:
+            spoil_category_answers()
         text = uncps(c['t'])
         res = {'ok': True, 'cat': 'NONE', 'enc': [], 'held': 0, 'exc': ''}
         try:
@@ -47,6 +49,24 @@ def replay_history(ht, cells, with_kern_reference=False, fresh_reference=False):
             ev['kern'] = k
         log.append(ev)
     return log
+
+
+def spoil_category_answers():
+    """The category sets the API hands out belong to the caller: they are requested and emptied (the importers consult the same
+    hierarchy to decide what is shared structure - they must not notice)."""
+    import kernpy as kp
+    C = kp.TokenCategory
+    for c in C:
+        for f in (C.nodes, C.children, C.leaves):
+            try:
+                f(c).clear()
+            except Exception:  # noqa
+                pass
+    for f in (C.all, C.valid):
+        try:
+            f().clear()
+        except Exception:  # noqa
+            pass
 
 
 def describe(ev):
